@@ -39,7 +39,7 @@ def check(ctx):
     ctx.build()
     # (M) the connection protocol cannot panic and per-connection state is only touched by its own goroutines (MC_Conn NoPanic)
     ctx.tlc("MC_Conn", constants={"Callers": "{1, 2}", "MaxMsgs": 1, "CapMsg": 2, "CapActive": 1, "CapComplete": 1, "CapOp": 2,
-                                  "Protocol": '"fixed"', "TermResponds": "TRUE", "SerialMod": 4, "Identity": "TRUE"}, workers=14, heap="10g", timeout=3000)
+                                  "Protocol": '"fixed2"', "TermResponds": "TRUE", "SerialMod": 4, "Identity": "TRUE"}, workers=14, heap="10g", timeout=3000)
     ev = jt808_side(ctx, "default")
     jt808_side(ctx, "parseall")
     ctx.sample({"from": "hostile-catalogue", "names": [e["name"] for e in ev if e["ev"] == "hostile"][:20]})
